@@ -22,7 +22,7 @@ from engines import edif_gen as G
 
 ENGINE_DIR = "Spydr/Edif"
 AUDIT = "Spydr/Edif/Audit.lean"
-MODULES = {"C05": ["Spydr.Edif.Props.C05", "Spydr.Edif.Props.C05Denote", "Spydr.Edif.Props.C05Struct", "Spydr.Edif.Props.C05Kw", "Spydr.Edif.Audit"],
+MODULES = {"C05": ["Spydr.Edif.Props.C05", "Spydr.Edif.Props.C05Denote", "Spydr.Edif.Props.C05Struct", "Spydr.Edif.Props.C05Kw", "Spydr.Edif.Props.C05Erase", "Spydr.Edif.Audit"],
            "C03": ["Spydr.Edif.Props.C03", "Spydr.Edif.Props.C03Closure", "Spydr.Edif.Props.C03Fragment", "Spydr.Edif.Audit"]}
 THEOREMS = json.load(open(os.path.join(os.path.dirname(__file__), "edif.meta.json")))["properties"]
 
